@@ -1,3 +1,6 @@
+/-
+  K7 — CONNECT packets / auth calls in a trace; the connect window while the transport stays up.
+-/
 import Sio.Lemmas.Client
 namespace Sio.Client
 
